@@ -298,11 +298,17 @@ class PartyLoop(asyncio.AbstractEventLoop):
                 if not h._cancelled:
                     try:
                         h._run()           # Handle._run reports exceptions via call_exception_handler
+                    except CpuBudget:
+                        raise
                     except BaseException as e:
                         self.errors.append({'message': 'escaped handle', 'exception': e})
         finally:
             events._set_running_loop(None)
         return n
+
+
+class CpuBudget(KeyboardInterrupt):
+    """raised by the CPU-time alarm of World.run(cpu_seconds=...); a KeyboardInterrupt subclass, so that asyncio's handles and tasks let it through"""
 
 
 class _Server:
@@ -609,9 +615,7 @@ class World:
         # CPU budget (process CPU time, so machine load does not matter): for workloads whose worlds take well under a second on the unchanged tree, a world
         # that burns cpu_seconds (a livelock exchanging messages forever, 2**garbage, ...) ends with status CPU-LIMIT, like STEP-LIMIT a "did not complete"
         import signal
-
-        class _CpuBudget(BaseException):
-            pass
+        _CpuBudget = CpuBudget
 
         def _alarm(signum, frame):
             raise _CpuBudget()
